@@ -56,7 +56,7 @@ Open Scope R_scope.
 
 Definition Phi0 (x : R) : R := (1 + x / (1 + Rabs x)) / 2.
 Definition PhiInv0 (u : R) : R := (2 * u - 1) / (1 - Rabs (2 * u - 1)).
-Definition erfinv0 (t : R) : R := PhiInv0 ((1 + t) / 2) / sqrt 2.
+Definition erfinv0 (t : R) : R := PhiInv0 ((1 + t) / 2) / R_sqrt.sqrt 2.
 Definition F0 : funs := mkFuns Phi0 PhiInv0 erfinv0 (fun x => x).
 
 Lemma squash_nonneg (x : R) : 0 <= x -> x / (1 + Rabs x) = 1 - / (1 + x).
@@ -105,7 +105,7 @@ Proof.
     assert (B : 0 < / (1 - - t)) by (apply Rinv_0_lt_compat; lra). unfold Rdiv. nra.
 Qed.
 
-Lemma sqrt2_neq_0 : sqrt 2 <> 0.
+Lemma sqrt2_neq_0 : R_sqrt.sqrt 2 <> 0.
 Proof. intro H. apply sqrt_eq_0 in H; lra. Qed.
 
 Example special_functions_satisfiable : special_ok F0.
@@ -115,9 +115,9 @@ Proof.
   - unfold Phi0. pose proof (squash_range x). lra.
   - unfold Phi0. pose proof (squash_range x). lra.
   - intro x. unfold PhiInv0, Phi0.
-    replace (2 * ((1 + x / (1 + Rabs x)) / 2) - 1) with (x / (1 + Rabs x)) by field.
-    + apply unsquash_squash.
-    + pose proof (Rabs_pos x). lra.
+    assert (P : 1 + Rabs x <> 0) by (pose proof (Rabs_pos x); lra).
+    replace (2 * ((1 + x / (1 + Rabs x)) / 2) - 1) with (x / (1 + Rabs x)) by (field; exact P).
+    apply unsquash_squash.
   - intros u Hu. unfold PhiInv0, Phi0. rewrite (squash_unsquash (2 * u - 1)) by lra. field.
   - intros t Ht. unfold erfinv0. field. apply sqrt2_neq_0.
 Qed.
@@ -159,6 +159,7 @@ Example stack_hypothesis_holds : Forall pos_scale (m_transforms (message_of (RAf
 Proof. apply (message_valid Phi0 PhiInv0 erfinv0 (fun x => x)). apply priors_valid. Qed.
 
 (* the guard of the partial theorem is satisfiable and the refutation witness violates it *)
+From Coq Require Import QArith.
 Open Scope Q_scope.
 Example guard_holds_for_two_decimals :
   round14_Q (25 # 100) == 25 # 100 /\ round14_Q (175 # 100) == 175 # 100.
